@@ -418,12 +418,17 @@ def r9_offset_validity_siblings(cx):
     cx.ob("R9", "R9/Offset.is_valid-inclusive", len(le) == 1 and le[0]["rv"]["op"] == "Le", g, "Offset::is_valid(size) is `offset <= size`")
 
 
+# without any compression feature the Compression enum has a single variant: the compressed path does not exist
+WITH_COMPRESSION = ("lib-all3", "lib-default", "all-bins", "lib-release")
+r5_compression_tables.only_configs = WITH_COMPRESSION
+r8_sampling_rewinds.only_configs = WITH_COMPRESSION
+
 RULES = [
     ("R1", r1_cluster_tail, 8),
     ("R2", r2_packing, 6),
     ("R3", r3_no_such_content, 3),
     ("R4", r4_input_file, 3),
-    ("R5", r5_compression_tables, 8),
+    ("R5", r5_compression_tables, 6),
     ("R6", r6_data_location, 3),
     ("R7", r7_width_covers, 3),
     ("R8", r8_sampling_rewinds, 1),
